@@ -1484,6 +1484,25 @@ def m_option_filter(ex, st, call, args):
     return gen()
 
 
+def m_option_unwrap_or_else(ex, st, call, args):
+    try:
+        f = args[1]
+        fv = ex.load(st, f[1]) if f[0] == "ref" else (f[1] if f[0] == "&" else f)
+        if fv[0] != "closure":
+            return NotImplemented
+    except Exception:
+        return NotImplemented
+
+    def gen():
+        for s, is_some, payload in _opt_cases(ex, st, args[0]):
+            if is_some:
+                yield s, "ret", payload
+            else:
+                for s2, v in _call_closure_paths(ex, s, args[1], []):
+                    yield s2, "ret", v
+    return gen()
+
+
 def m_option_is(some):
     def model(ex, st, call, args):
         def gen():
@@ -1627,6 +1646,7 @@ DEFAULT_MODELS = {
     "core::option::Option::<T>::unwrap": m_option_unwrap,
     "core::option::Option::<T>::expect": m_option_unwrap,
     "core::option::Option::<T>::unwrap_or": m_option_unwrap_or,
+    "core::option::Option::<T>::unwrap_or_else": m_option_unwrap_or_else,
     "core::array::<impl [T; N]>::map": m_array_map,
     "alloc::slice::<impl [T]>::sort": m_sort,
     "core::slice::<impl [T]>::sort_unstable": m_sort,
